@@ -29,6 +29,17 @@ macro_rules! uint_ty {
 					}),
 				}
 			}
+			// the trait constructors of the `Uniform<T>` wrapper itself (generic code: `S::try_new_inclusive` with `S = Uniform<T>`)
+			"utrait" => {
+				let d = if incl { <Uniform<$ty> as UniformSampler<$ty>>::try_new_inclusive(lo, hi) } else { <Uniform<$ty> as UniformSampler<$ty>>::try_new(lo, hi) };
+				match d {
+					Err(e) => Ok(format!("err:{:?}", e)),
+					Ok(d) => Ok(match with_mock(&words, |r| draw::<$ty, _>(r, &d, n)) {
+						Some((v, c)) => fmt(v, c),
+						None => "panic".into(),
+					}),
+				}
+			}
 			"sampler" => {
 				let d = if incl { <UniformInt<$ty> as UniformSampler<$ty>>::try_new_inclusive(lo, hi) } else { <UniformInt<$ty> as UniformSampler<$ty>>::try_new(lo, hi) };
 				match d {
